@@ -251,8 +251,8 @@ type hostStruct struct {
 	hid int
 }
 
-func (h hostStruct) Method(x int) int    { return x + h.A }
-func (h *hostStruct) PtrMethod() string  { return h.B }
+func (h hostStruct) Method(x int) int         { return x + h.A }
+func (h *hostStruct) PtrMethod() string       { return h.B }
 func (h hostStruct) Variadic(a ...string) int { return len(a) }
 
 // prepareVM defines the host values the kind expressions refer to. Otto.Set is public API too: a
